@@ -228,7 +228,21 @@ def _specific_yield(ctx, chk, rprog):
     ifs = [s for s in pf.node.body if isinstance(s, ast.If)]
     rets = [s for s in ast.walk(pf.node) if isinstance(s, ast.Return)]
     if len(ifs) != 1 or len(rets) != 1 or not ifs[0].orelse:
-        chk.indeterminate("C16.O2", where_of(pf, pf.node), "expected one if/else and one return in campbell_1d_az")
+        # saturation must be decided by the pressure-head test (zlu - z_ vs psi_s), as in the reference;
+        # min/max/clip of the retention curve is a different function below the water table
+        has_head_test = False
+        for c in ast.walk(pf.node):
+            if isinstance(c, ast.Compare):
+                nm = {x.id for x in ast.walk(c) if isinstance(x, ast.Name)}
+                if {"zlu", "z_", "psi_s"} <= nm or {pf.params[2], pf.params[1], pf.params[4]} <= nm:
+                    has_head_test = True
+        clips = [c for c in ast.walk(pf.node) if isinstance(c, ast.Call) and (dotted_name(c.func) or "").split(".")[-1] in ("min", "max", "minimum", "maximum", "clip")]
+        if not has_head_test and clips:
+            chk.ob("C16.O2", False, where_of(pf, clips[0]), "saturation decided by `%s`, without comparing the pressure head (zlu - z_) with psi_s" % ast.unparse(clips[0])[:90],
+                   "theta = theta_s where (zlu - z_) >= psi_s, the Campbell curve elsewhere (as in the R reference)",
+                   key="campbell|condition", why="below the water table the ratio is negative: its power is NaN or, for integer 1/b, a real number below theta_s; capping is not the branch")
+        else:
+            chk.indeterminate("C16.O2", where_of(pf, pf.node), "expected one if/else and one return in campbell_1d_az")
         return
     iff = ifs[0]
 
